@@ -131,7 +131,8 @@ class Outcome:
     """What the server did with one command."""
 
     __slots__ = ('out', 'conts', 'tagged', 'closed', 'bye', 'serverbug', 'exc', 'hang',
-                 'sent', 'unsent', 'pending', 'other_ok', 'wall', 'cont_texts', 'truncated')
+                 'sent', 'unsent', 'pending', 'other_ok', 'wall', 'cont_texts', 'truncated', 'units',
+                 'last_silent', 'site')
 
     def __init__(self) -> None:
         self.out = b''
@@ -146,6 +147,9 @@ class Outcome:
         self.sent = 0               # units sent
         self.unsent = 0             # bytes held back
         self.truncated = False      # the input ended inside a unit
+        self.units: list[bytes] = []   # the units sent, in order
+        self.last_silent = False    # the last unit sent drew no output at all
+        self.site = ''              # last pymap frame of the escaped exception
         self.pending = False        # server still waits for input of this command
         self.other_ok: bool | None = None
         self.wall = 0.0
@@ -161,7 +165,8 @@ class Outcome:
                 'closed': self.closed, 'bye': self.bye, 'serverbug': self.serverbug,
                 'exc': self.exc, 'hang': self.hang, 'sent': self.sent, 'unsent': self.unsent,
                 'pending': self.pending, 'other_ok': self.other_ok,
-                'truncated': self.truncated}
+                'truncated': self.truncated, 'site': self.site,
+                'units': [u[:200].decode('latin-1') for u in self.units]}
 
 
 _TAGGED = re.compile(rb'^(\S+) (OK|NO|BAD)(?: |$)')
@@ -221,6 +226,8 @@ async def feed(conn: Conn, data: bytes, other: Conn | None = None, probe_other: 
             sent = data[pos:end]
             pos = end
             o.sent += 1
+            o.units.append(sent)
+            o.last_silent = not chunk
             o.out += chunk
             done = scan(o, chunk)
             if conn.closed or done:
@@ -246,6 +253,10 @@ async def feed(conn: Conn, data: bytes, other: Conn | None = None, probe_other: 
         o.exc = type(conn.exc).__name__
         if isinstance(conn.exc, Hang):
             o.hang = True
+        import traceback
+        frames = [f for f in traceback.extract_tb(conn.exc.__traceback__) if '/pymap/' in f.filename]
+        if frames:
+            o.site = frames[-1].filename.split('/pymap/')[-1] + ':' + frames[-1].name
     if o.tagged is None and not o.bye and not o.closed and not o.hang:
         o.pending = True
     if other is not None and o.other_ok is None and (probe_other or o.hang or o.exc):
@@ -270,6 +281,34 @@ async def probe(other: Conn) -> bool:
 
 STATES = ('na', 'auth', 'sel')
 
+# connections are kept referenced until the run ends (a pending connection
+# task that is garbage collected makes asyncio print a warning)
+LIVE: list = []
+
+
+def keep(conn):
+    LIVE.append(conn)
+    return conn
+
+
+async def finish_all() -> None:
+    tasks = [t for t in asyncio.all_tasks() if t is not asyncio.current_task()]
+    for t in tasks:
+        t.cancel()
+    await asyncio.gather(*tasks, return_exceptions=True)
+    LIVE.clear()
+
+
+def run_all(coro, timeout: float = 3000.0):
+    from .pymap_env import run
+
+    async def wrapped():
+        try:
+            return await coro
+        finally:
+            await finish_all()
+    return run(wrapped(), timeout=timeout)
+
 
 class Pool:
     """Connections in the three states on a shared DictEnv, recycled."""
@@ -285,7 +324,7 @@ class Pool:
     async def _new_env(self) -> None:
         self.env = await DictEnv().start()
         self.conns = {}
-        self.other = await self.env.login()
+        self.other = keep(await self.env.login())
         self.used = 0
 
     async def get(self, state: str) -> Conn:
@@ -307,7 +346,7 @@ class Pool:
             if state == 'sel':
                 r = await c.send(b'zz SELECT INBOX\r\n')
                 assert b'zz OK' in r, r
-        self.conns[state] = c
+        self.conns[state] = keep(c)
         return c
 
     def drop(self, state: str) -> None:
